@@ -4,6 +4,7 @@ import (
 	"bytes"
 	"fmt"
 	"github.com/mandykoh/prism/meta/binary"
+	"io"
 )
 
 type TextDescription struct {
@@ -32,6 +33,13 @@ func parseTextDescription(data []byte) (TextDescription, error) {
 	asciiCount, err := binary.ReadU32Big(reader)
 	if err != nil {
 		return desc, err
+	}
+
+	if asciiCount == 0 {
+		return desc, nil
+	}
+	if uint64(asciiCount) > uint64(reader.Len()) {
+		return desc, io.ErrUnexpectedEOF
 	}
 
 	asciiBytes := make([]byte, asciiCount-1)
